@@ -197,8 +197,13 @@ func connect[H handler, State any](ctx context.Context, t Transport, b binder[H,
 		h         H
 		preempter canceller
 	)
+	// bound is closed once h is set. Binding publishes the session (a server
+	// lists it in Sessions), so it can be closed by somebody else before bind
+	// has returned here; OnDone must not run with the zero h then.
+	bound := make(chan struct{})
 	bind := func(conn *jsonrpc2.Connection) jsonrpc2.Handler {
 		h = b.bind(mcpConn, conn, s, onClose)
+		close(bound)
 		preempter.conn = conn
 		return jsonrpc2.HandlerFunc(h.handle)
 	}
@@ -216,6 +221,7 @@ func connect[H handler, State any](ctx context.Context, t Transport, b binder[H,
 		Bind:      bind,
 		Preempter: &preempter,
 		OnDone: func() {
+			<-bound
 			b.disconnect(h)
 		},
 		OnInternalError: func(err error) {
